@@ -682,7 +682,15 @@ class FldExporter(Exporter):
         if scope == FldExporter.ScopeOfValues.AllVariables:
             if len(engine.input_variables) == 0:
                 raise ValueError("expected input variables in engine, but got none")
-            resolution = -1 + max(1, int(pow(values, (1.0 / len(engine.input_variables)))))
+            # largest integer root such that root**inputs <= values (the floating-point root of a perfect power,
+            # eg 64 ** (1/3) = 3.9999999999999996, must not be truncated)
+            inputs = len(engine.input_variables)
+            root = max(1, round(pow(values, 1.0 / inputs)))
+            while root > 1 and root**inputs > values:
+                root -= 1
+            while (root + 1) ** inputs <= values:
+                root += 1
+            resolution = root - 1
         else:
             resolution = values - 1
 
